@@ -13,6 +13,7 @@
 #include <fcppt/make_shared_ptr.hpp>
 #include <fcppt/make_unique_ptr.hpp>
 #include <fcppt/shared_ptr_impl.hpp>
+#include <fcppt/system.hpp>
 #include <fcppt/type_name.hpp>
 #include <fcppt/type_name_from_info.hpp>
 #include <fcppt/unique_ptr_dynamic_cast.hpp>
@@ -41,6 +42,7 @@
 #include <fcppt/filesystem/replace_extension.hpp>
 #include <fcppt/filesystem/stem.hpp>
 #include <fcppt/filesystem/strip_prefix.hpp>
+#include <fcppt/io/extract.hpp>
 #include <fcppt/io/get.hpp>
 #include <fcppt/io/peek.hpp>
 #include <fcppt/io/read.hpp>
@@ -320,7 +322,7 @@ std::optional<std::string> handle_env(std::vector<std::string> const &t)
     auto const r = fcppt::io::read_chars(*in.is, static_cast<std::size_t>(vh::to_ull(t[3])));
     if (!r.has_value())
       return "none " + stream_bits(*in.is);
-    return "some s:" + std::string(r.get_unsafe().begin(), r.get_unsafe().end()) + " " + stream_bits(*in.is);
+    return "some " + out_str(std::string(r.get_unsafe().begin(), r.get_unsafe().end())) + " " + stream_bits(*in.is);
   }
   if (op == "readchars2" && t.size() == 5)
   {
@@ -332,7 +334,7 @@ std::optional<std::string> handle_env(std::vector<std::string> const &t)
     for (std::size_t i = 3; i < 5; ++i)
     {
       auto const r = fcppt::io::read_chars(*in.is, static_cast<std::size_t>(vh::to_ull(t[i])));
-      out += r.has_value() ? "some s:" + std::string(r.get_unsafe().begin(), r.get_unsafe().end()) + " " : std::string{"none "};
+      out += r.has_value() ? "some " + out_str(std::string(r.get_unsafe().begin(), r.get_unsafe().end())) + " " : std::string{"none "};
     }
     return out + stream_bits(*in.is);
   }
@@ -342,7 +344,7 @@ std::optional<std::string> handle_env(std::vector<std::string> const &t)
     if (!make_in(t[1], payload(t[2]), in))
       return "bad-op";
     auto const r = fcppt::io::stream_to_string(*in.is);
-    return r.has_value() ? "some s:" + r.get_unsafe() : std::string{"none"};
+    return r.has_value() ? "some " + out_str(r.get_unsafe()) : std::string{"none"};
   }
   if ((op == "ioget" || op == "iopeek") && t.size() == 3)
   {
@@ -374,6 +376,23 @@ std::optional<std::string> handle_env(std::vector<std::string> const &t)
     if (t[1] == "u32") return show(fcppt::io::read<std::uint32_t>(*in.is, e));
     if (t[1] == "i32") return show(fcppt::io::read<std::int32_t>(*in.is, e));
     if (t[1] == "u64") return show(fcppt::io::read<std::uint64_t>(*in.is, e));
+    return "bad-op";
+  }
+  if (op == "ioextract" && t.size() == 4)
+  {
+    // io::extract<T> (operator>> into an optional) on a stream in the given state
+    in_stream in;
+    if (!make_in(t[2], payload(t[3]), in))
+      return "bad-op";
+    auto show = [](auto const &r) {
+      return r.has_value() ? "some " + std::to_string(static_cast<long long>(r.get_unsafe())) : std::string{"none"};
+    };
+    if (t[1] == "int") return show(fcppt::io::extract<int>(*in.is));
+    if (t[1] == "uint") return show(fcppt::io::extract<unsigned>(*in.is));
+    if (t[1] == "short") return show(fcppt::io::extract<short>(*in.is));
+    if (t[1] == "long") return show(fcppt::io::extract<long>(*in.is));
+    if (t[1] == "char") return show(fcppt::io::extract<char>(*in.is));
+    if (t[1] == "uchar") return show(fcppt::io::extract<unsigned char>(*in.is));
     return "bad-op";
   }
   if (op == "writechars" && t.size() == 3)
@@ -569,6 +588,25 @@ std::optional<std::string> handle_env(std::vector<std::string> const &t)
     for (std::size_t i = 0; i < r.size(); ++i)
       out += (i == 0 ? "" : ",") + r[i];
     return std::to_string(r.size()) + " " + (r.empty() ? "_" : out);
+  }
+  if (op == "system" && t.size() == 2)
+  {
+    // fcppt::system: the exit status of a command that exited, nothing for one that was killed
+    fcppt::string const cmd = t[1] == "exit0"      ? "exit 0"
+                              : t[1] == "exit3"    ? "exit 3"
+                              : t[1] == "exit255"  ? "exit 255"
+                              : t[1] == "exit256"  ? "exit 256"
+                              : t[1] == "true"     ? "true"
+                              : t[1] == "empty"    ? ""
+                              : t[1] == "notfound" ? "/nonexistent/verif_c01_command 2>/dev/null"
+                              : t[1] == "kill"     ? "kill -KILL $$"
+                              : t[1] == "term"     ? "kill -TERM $$"
+                              : t[1] == "segv"     ? "kill -SEGV $$"
+                                                   : "#";
+    if (cmd == "#")
+      return "bad-op";
+    auto const r = fcppt::system(cmd);
+    return r.has_value() ? "some " + std::to_string(r.get_unsafe()) : std::string{"none"};
   }
   if (op == "strerror" && t.size() == 2)
   {
